@@ -266,3 +266,82 @@ def backtrack_pairing(rep, F, tag, rid):
                 R.check(ai == 'arg7', 'alpha-init|%s%s' % (K, tag), '%s starts the search from %s, expected alpha_max' % (K, ai))
 
     R.guard(body)
+
+
+def interior_shift(rep, F, tag, rid):
+    """Initial shift into the cone interior.  In floating point z + (target - m) with a hugely negative margin m
+    rounds (target - m) to -m and leaves the worst component exactly on the boundary; (z + target) - m loses the
+    target the same way.  Only 'first cancel the margin, then add the target' is sign-exact after stage one
+    (fl(z_i - m) >= 0 by monotone rounding) and strictly positive after stage two."""
+    R = rep.rule(rid, 'shift into the cone interior: margin cancelled first, then target >= 1 added, as two separate '
+                      'shifts; composite margin is the minimum over cones and the shift is forwarded unchanged')
+
+    def body():
+        f = F.one(name='_shift_to_cone_interior')
+        leaves = [l for l in Walker(f, cut_loops=True).leaves() if l[1][0] != 'diverge']
+        seen = set()
+        for val, ret, ev, tr in leaves:
+            calls = [split_args(e[2]) for e in ev if e[0] == 'call' and e[1] == 'scaled_unit_shift']
+            mc = [e[2] for e in ev if e[0] == 'call' and e[1] == 'margins']
+            if len(mc) != 1:
+                R.bad('margins-call' + tag, 'margins is called %d times on a path' % len(mc), f.loc())
+                continue
+            MIN, POS = mc[0] + '.0', mc[0] + '.1'
+            R.check(split_args(mc[0]) == ['arg2', 'arg1', 'arg3'], 'margins-args' + tag, 'margins(%s), expected (cones, z, pd)' % mc[0], f.loc())
+            outside = [v for k, v in val.items() if k in ('le(%s, zero())' % MIN, 'lt(%s, zero())' % MIN)]
+            if len(outside) != 1:
+                R.bad('outside-test' + tag, 'no test of the minimum margin against zero on this path: %s' % list(val), f.loc())
+                continue
+            for a in calls:
+                R.check(a[0] == 'arg2' and a[1] == 'arg1' and a[3] == 'arg3', 'shift-target' + tag,
+                        'scaled_unit_shift(%s), expected (cones, z, ., pd)' % ', '.join(a), f.loc())
+            amounts = [a[2] for a in calls]
+            if outside[0]:
+                seen.add('outside')
+                ok = len(amounts) == 2 and amounts[0] == 'neg(%s)' % MIN and (amounts[1].startswith('max(one(), ') or amounts[1].endswith(', one())') and amounts[1].startswith('max('))
+                R.check(ok, 'two-stage' + tag,
+                        'with some component outside its cone the shifts are %s; required: first -min_margin (sign-exact), then '
+                        'target = max(1, .) as a separate shift - a merged or reversed shift rounds the worst component onto the boundary' % amounts, f.loc())
+                if ok:
+                    TARGET = amounts[1]
+            else:
+                small = [(k, v) for k, v in val.items() if k.startswith('lt(%s, ' % MIN) and not k.endswith(', zero())')]
+                if len(small) != 1:
+                    R.bad('small-test' + tag, 'no test of the margin against the target on this path: %s' % list(val), f.loc())
+                    continue
+                tgt = small[0][0][len('lt(%s, ' % MIN):-1]
+                R.check(tgt.startswith('max(one(), ') or (tgt.startswith('max(') and tgt.endswith(', one())')), 'target>=1' + tag,
+                        'the target margin is %s, expected max(1, .)' % tgt, f.loc())
+                if small[0][1]:
+                    seen.add('small')
+                    R.check(amounts == ['sub(%s, %s)' % (tgt, MIN)], 'small-margin' + tag, 'with 0 < margin < target the shifts are %s, expected target - margin' % amounts, f.loc())
+                else:
+                    seen.add('good')
+                    R.check(amounts == ['zero()'], 'good-margin' + tag,
+                            'with margin >= target the shifts are %s, expected one shift by zero (forces zero-cone entries to zero)' % amounts, f.loc())
+        R.check(seen == {'outside', 'small', 'good'}, 'cases' + tag, 'cases analysed: %s' % sorted(seen), f.loc())
+        # callers: s with the primal, z with the dual cone
+        init = F.one(name='symmetric_initialization', adt='DefaultVariables')
+        cs = calls_named(init, '_shift_to_cone_interior')
+        got = sorted((canon(init.sym_operand(c.args[0])), const_variant(init.sym_operand(c.args[2])) or canon(init.sym_operand(c.args[2]))) for c in cs)
+        R.check(got == [('self.s', 'PrimalCone'), ('self.z', 'DualCone')], 'callers' + tag, 'symmetric_initialization shifts %s, expected s in the primal and z in the dual cone' % got, init.loc())
+        # composite: margin = min over cones from max_value; shift forwarded unchanged
+        m = F.one(name='margins', adt='CompositeCone', trait='Cone')
+        mins = [c for c in m.calls if c.callee.name == 'min']
+        init_ok = any(c.callee.name == 'max_value' for c in m.calls)
+        ok = len(mins) == 1 and init_ok
+        if ok:
+            a = [canon(m.sym_operand(x)) for x in mins[0].args]
+            ok = any('margins(' in x and x.endswith('.0') for x in a)
+        R.check(ok, 'composite-min' + tag, 'CompositeCone::margins does not fold the per-cone minimum margins with min from max_value', m.loc())
+        for bi, si, st in m.assignments():
+            pass
+        sh = F.one(name='scaled_unit_shift', adt='CompositeCone', trait='Cone')
+        inner = [c for c in sh.calls if c.callee.name == 'scaled_unit_shift']
+        ok = len(inner) == 1
+        if ok:
+            a = [canon(sh.sym_operand(x)) for x in inner[0].args]
+            ok = a[2] == 'arg3' and a[3] == 'arg4' and 'arg2' in a[1]
+        R.check(ok, 'composite-forward' + tag, 'CompositeCone::scaled_unit_shift does not forward (alpha, pd) unchanged to every cone', sh.loc())
+
+    R.guard(body)
